@@ -4,6 +4,7 @@
 #include <fcntl.h>
 #include <sys/mman.h>
 #include <unistd.h>
+#include <cstdlib>
 #include <sstream>
 
 #include <nop/utility/bounded_reader.h>
@@ -182,6 +183,16 @@ struct AllocStats {
   bool active = false;
 };
 AllocStats& alloc_stats();
+
+// exactly-sized heap block: ASan sees one byte past the end
+struct Heap {
+  std::uint8_t* p; std::size_t n;
+  explicit Heap(const std::vector<std::uint8_t>& v) : p(static_cast<std::uint8_t*>(std::malloc(v.size() ? v.size() : 1))), n(v.size()) {
+    if (n) std::memcpy(p, v.data(), n);
+  }
+  ~Heap() { std::free(p); }
+  Heap(const Heap&) = delete;
+};
 
 // memfd-backed file descriptors for FdReader / FdWriter (no pipe capacity limits)
 inline int make_memfd() { return memfd_create("nopv", 0); }
